@@ -80,11 +80,11 @@ static int fmt_real(char *out, long double v, const rdesc_t *d) {
 
 /* ---------- the written matrix, the expected result (work storage grown on demand) ---------- */
 typedef char tok_t[40];
-typedef struct { int r; scalar_t v; } ent_t;
+typedef struct { int r; scalar_t v, v2; } ent_t;        /* v2: the token rounded decimal -> double -> working precision */
 static struct {
     int cap_n, cap_nz;
     int *colptr, *rowind; tok_t *re, *im;           /* as it stands in the file (0-based here) */
-    int *ecolptr, *erow; scalar_t *eval;            /* expected column-compressed result */
+    int *ecolptr, *erow; scalar_t *eval, *eval2;            /* expected column-compressed result */
     ent_t *ent;
 } W;
 typedef struct { int m, n, nnz, sym; } fmat_t;       /* nnz = entries in the file (lower triangle if sym) */
@@ -96,14 +96,30 @@ static void w_ensure(int n, int nz) {
     if (2 * nz + 2 > W.cap_nz) {
         W.cap_nz = 2 * nz + 2;
         W.rowind = realloc(W.rowind, sizeof(int) * W.cap_nz); W.re = realloc(W.re, sizeof(tok_t) * W.cap_nz); W.im = realloc(W.im, sizeof(tok_t) * W.cap_nz);
-        W.erow = realloc(W.erow, sizeof(int) * W.cap_nz); W.eval = realloc(W.eval, sizeof(scalar_t) * W.cap_nz); W.ent = realloc(W.ent, sizeof(ent_t) * W.cap_nz);
+        W.erow = realloc(W.erow, sizeof(int) * W.cap_nz); W.eval = realloc(W.eval, sizeof(scalar_t) * W.cap_nz); W.eval2 = realloc(W.eval2, sizeof(scalar_t) * W.cap_nz); W.ent = realloc(W.ent, sizeof(ent_t) * W.cap_nz);
     }
 }
 /* the reference value of a printed token: the correctly rounded working-precision number (glibc strtof/strtod are
  * correctly rounded; a D exponent is Fortran's spelling of E) */
+static long tok_ref_diff_dummy, *TOK_REF_DIFF = &tok_ref_diff_dummy;    /* tokens for which strtold-then-round disagrees with strtof/strtod (expected: none) */
 static real_t tok_real(const char *t) {
     char b[48]; int n = 0; for (; *t && n < 47; t++) b[n++] = (*t == 'D' || *t == 'd') ? 'E' : *t; b[n] = 0;
-    return sizeof(real_t) == 4 ? (real_t)strtof(b, NULL) : (real_t)strtod(b, NULL);
+    real_t r = sizeof(real_t) == 4 ? (real_t)strtof(b, NULL) : (real_t)strtod(b, NULL), r2 = (real_t)strtold(b, NULL);
+    if (memcmp(&r, &r2, sizeof r)) ++*TOK_REF_DIFF;
+    return r;
+}
+static real_t tok_real_via_double(const char *t) {
+    char b[48]; int n = 0; for (; *t && n < 47; t++) b[n++] = (*t == 'D' || *t == 'd') ? 'E' : *t; b[n] = 0;
+    return (real_t)strtod(b, NULL);
+}
+static scalar_t tok_scalar2(int k) {
+    scalar_t s;
+#if IS_COMPLEX
+    s.r = tok_real_via_double(W.re[k]); s.i = tok_real_via_double(W.im[k]);
+#else
+    s = tok_real_via_double(W.re[k]);
+#endif
+    return s;
 }
 static scalar_t tok_scalar(int k) {
     scalar_t s;
@@ -127,13 +143,13 @@ static void build_expected(void) {
     E.nnz = W.ecolptr[n];
     int *pos = malloc(sizeof(int) * (n + 1)); for (int j = 0; j < n; j++) pos[j] = W.ecolptr[j];
     for (int j = 0; j < n; j++) for (int k = W.colptr[j]; k < W.colptr[j + 1]; k++) {
-        int i = W.rowind[k]; scalar_t v = tok_scalar(k);
-        W.ent[pos[j]].r = i; W.ent[pos[j]].v = v; pos[j]++;
-        if (F.sym && i != j && i < n) { W.ent[pos[i]].r = j; W.ent[pos[i]].v = v; pos[i]++; }
+        int i = W.rowind[k]; scalar_t v = tok_scalar(k), v2 = tok_scalar2(k);
+        W.ent[pos[j]].r = i; W.ent[pos[j]].v = v; W.ent[pos[j]].v2 = v2; pos[j]++;
+        if (F.sym && i != j && i < n) { W.ent[pos[i]].r = j; W.ent[pos[i]].v = v; W.ent[pos[i]].v2 = v2; pos[i]++; }
     }
     free(pos);
     for (int j = 0; j < n; j++) qsort(W.ent + W.ecolptr[j], W.ecolptr[j + 1] - W.ecolptr[j], sizeof(ent_t), ent_cmp);
-    for (int k = 0; k < E.nnz; k++) { W.erow[k] = W.ent[k].r; W.eval[k] = W.ent[k].v; }
+    for (int k = 0; k < E.nnz; k++) { W.erow[k] = W.ent[k].r; W.eval[k] = W.ent[k].v; W.eval2[k] = W.ent[k].v2; }
 }
 
 /* ---------- text buffer ---------- */
